@@ -109,4 +109,49 @@ theorem chord_on_line (α β x0 x1 x : K) (h : x0 ≠ x1) :
   field_simp
   ring
 
+/-! ### The sign of the slope (used for: the returned linear map is increasing) -/
+
+/-- `n ∑ x y − (∑ x)(∑ y) = ½ ∑∑ (x k − x l)(y k − y l)`. -/
+theorem cov_identity {n : ℕ} (x y : Fin n → K) :
+    2 * ((n : K) * ∑ k, x k * y k - (∑ k, x k) * ∑ k, y k) = ∑ k, ∑ l, (x k - x l) * (y k - y l) := by
+  have h1 : ∀ k, ∑ l, (x k - x l) * (y k - y l) =
+      (n : K) * (x k * y k) - x k * (∑ l, y l) - y k * (∑ l, x l) + ∑ l, x l * y l := by
+    intro k
+    have : ∀ l, (x k - x l) * (y k - y l) = x k * y k - x k * y l - y k * x l + x l * y l := fun l => by ring
+    simp only [this, sum_add_distrib, sum_sub_distrib, sum_const, card_univ, Fintype.card_fin, nsmul_eq_mul,
+      ← mul_sum]
+  simp only [h1, sum_add_distrib, sum_sub_distrib, sum_const, card_univ, Fintype.card_fin, nsmul_eq_mul,
+    ← mul_sum, ← sum_mul]
+  ring
+
+/-- If `y` increases strictly wherever `x` does, the least-squares slope of `y` on `x` is positive. -/
+theorem lsqSlope_pos {n : ℕ} (x y : Fin n → K) (hmono : ∀ k l, x k < x l → y k < y l) (k l : Fin n)
+    (hkl : x k < x l) : 0 < lsqSlope x y := by
+  unfold lsqSlope
+  apply div_pos _ (det_pos x k l hkl.ne)
+  have h := cov_identity x y
+  have hterm : ∀ i j, 0 ≤ (x i - x j) * (y i - y j) := by
+    intro i j
+    rcases lt_trichotomy (x i) (x j) with h | h | h
+    · exact mul_nonneg_of_nonpos_of_nonpos (by linarith) (by linarith [hmono i j h])
+    · rw [h]; simp
+    · exact mul_nonneg (by linarith) (by linarith [hmono j i h])
+  have hpos : 0 < ∑ i, ∑ j, (x i - x j) * (y i - y j) := by
+    refine sum_pos' (fun i _ => sum_nonneg fun j _ => hterm i j) ⟨k, mem_univ _, ?_⟩
+    refine sum_pos' (fun j _ => hterm k j) ⟨l, mem_univ _, ?_⟩
+    exact mul_pos_of_neg_of_neg (by linarith) (by linarith [hmono k l hkl])
+  linarith
+
+/-- Fitting `y − x` instead of `y` lowers the slope by one and keeps the intercept (`polyfit(tsa, tsb - tsa, 1)`). -/
+theorem lsqSlope_sub_self {n : ℕ} (x y : Fin n → K) (k l : Fin n) (hkl : x k ≠ x l) :
+    lsqSlope x (fun i => y i - x i) = lsqSlope x y - 1 := by
+  unfold lsqSlope
+  have hD := (det_pos x k l hkl).ne'
+  have e1 : ∑ i, x i * (y i - x i) = ∑ i, x i * y i - ∑ i, x i ^ 2 := by
+    rw [← sum_sub_distrib]
+    exact sum_congr rfl fun i _ => by ring
+  have e2 : ∑ i, (y i - x i) = ∑ i, y i - ∑ i, x i := sum_sub_distrib _ _
+  rw [e1, e2, eq_sub_iff_add_eq, div_add' _ _ _ hD, div_left_inj' hD]
+  ring
+
 end IblVerif.LineFit
